@@ -296,6 +296,17 @@ def impl_oracle(c):
                     "data: %s" % (p["len"], p["cap"], p["n"], p["view_ok"]))
         if p["len"] > p["cap"] and p["n"] >= 0:
             return ("tunnel-read-overrun", "a read reply of %d bytes was accepted into a %d-byte buffer" % (p["len"], p["cap"]))
+    elif s == "deadline":
+        for m in c["deadline"]["modes"]:
+            if m.get("setup_err"):
+                return ("e2e-setup", "could not run the deadline case (%s): %s" % (m["mode"], m["setup_err"]))
+            bad = [x for x in m["steps"] if not x.endswith(": ok")]
+            if bad or m["got"] != m["want"] or not m["prefix_ok"]:
+                return ("write-after-cleared-deadline-failed:%s" % m["mode"],
+                        "%s mode: the application behind Endpoint.Accept sets a deadline on its connection, uses it, clears it "
+                        "with the zero time and goes on after the old deadline has passed; both sides stay open: %s; the client "
+                        "received %d of %d bytes (steps: %s)" % (m["mode"], bad[0] if bad else "no step failed", m["got"],
+                                                                 m["want"], m["steps"]))
     elif s == "longidle":
         g = c["longidle"]
         for m in g["modes"]:
@@ -494,7 +505,10 @@ def run(ck):
         if body and body.get("skipped"):
             ck.coverage["e2e_skipped_after_timeouts"] = ck.coverage.get("e2e_skipped_after_timeouts", 0) + 1
             continue
-        if s == "longidle" and body:
+        if s == "deadline" and body:
+            for m in body["modes"]:
+                ck.count("deadline-" + m["mode"], key=("deadline", m["mode"]), trivial=False)
+        elif s == "longidle" and body:
             for m in body["modes"]:
                 ck.count("longidle-" + m["mode"], key=("longidle", m["mode"], body["idle_ms"]), trivial=False)
         elif s == "age" and body:
